@@ -308,6 +308,55 @@ def _chk_case(o, mode, key, case, acc, seed):
             if dig(r) != cold:
                 acc.violation(f'{key}:list-input:{pname}', case, f'{o.name} with {pname} given as a nested list of the same numbers differs from the ndarray call')
             return
+        if mode == 'cross':
+            ob = catalogue()[case['then']]
+            cold_b, _ = _cold(ob, seed, ob.variants()[0])
+            engine.reset_library_state()
+            np.random.seed(4242)
+            args_a = o.args(seed, o.variants()[0])
+            ra = _result(o, _call(o, args_a), args_a)
+            keep = dig(ra)
+            np.random.seed(4242)
+            args_b = ob.args(seed, ob.variants()[0])
+            rb = _result(ob, _call(ob, args_b), args_b)
+            if dig(rb) != cold_b:
+                acc.violation(f'history:{ob.name}:depends-on-previous-call:other-function', case,
+                              f'{ob.name} right after {o.name} differs from the same call on a cold library')
+            if dig(ra) != keep:
+                acc.violation(f'{key}:earlier-result-changed:other-function', case, f'the result of {o.name}, held by the caller, changed when {ob.name} ran')
+            return
+        if mode == 'positional':
+            # the documented positional order (mc/api_defaults.json, from the signatures of the pinned tree): the base call with its
+            # arguments passed by position is the base call with keywords
+            order = api_defaults().get(o.name, {}).get('positional') or []
+            base = o.variants()[0]
+            cold, _ = _cold(o, seed, base)
+            engine.reset_library_state()
+            np.random.seed(4242)
+            args = o.args(seed, base)
+            last = max([i for i, (pn, _, _) in enumerate(order) if pn in args], default=-1)
+            if last < 1 or any(pn not in [x[0] for x in order] for pn in args):
+                return 'n/a'
+            # as far down the documented list as the documented defaults allow (a parameter slipped into the middle of a
+            # signature shows only when the ones after it are given by position)
+            while last + 1 < len(order) and order[last + 1][1] == 'default':
+                last += 1
+            pos = []
+            for pn, kind, dflt in order[:last + 1]:
+                if pn in args:
+                    pos.append(args[pn])
+                elif kind == 'default':
+                    pos.append(tuple(dflt) if isinstance(dflt, list) else dflt)
+                else:
+                    return 'n/a'
+            with warnings.catch_warnings():
+                warnings.simplefilter('ignore')
+                r = o.fn(*pos)
+            r = _result(o, r, args)
+            if dig(r) != cold:
+                acc.violation(f'{key}:positional-arguments', case, f'{o.name} called with its {len(pos)} leading arguments by position (documented order '
+                              f'{[x[0] for x in order[:last + 1]]}) differs from the keyword call')
+            return
         if mode == 'default':
             # an optional argument given explicitly with its documented default (mc/api_defaults.json, taken from the signatures of
             # the pinned tree) is the call without it
@@ -454,6 +503,8 @@ def t_callhist(arg, acc):
     acc.cls('history:refills', nref)
     for i in range(len(o.bad)):
         chk_case(dict(case0, mode='refused', i=i), acc, seed)
+    if chk_case(dict(case0, mode='positional'), acc, seed) != 'n/a':
+        acc.cls('history:positional')
     for pname in sorted(o.base(seed)):
         if chk_case(dict(case0, mode='listified', param=pname), acc, seed) != 'n/a':
             acc.cls('history:list-inputs')
@@ -465,8 +516,36 @@ def t_callhist(arg, acc):
     acc.case(dict(case0, mode='all'), outcome=f'hist-{name}')
 
 
+def t_cross(arg, acc):
+    """every ordered pair of DIFFERENT operations (base variants): cold(B) == [A; B], and A's held result survives B.  Run by the
+    "no hidden state" property only."""
+    seed = arg['seed']
+    cat = catalogue()
+    names = sorted(cat)
+    a_names = names[arg['shard']::arg['nshard']]
+    cold = {}
+    for nb in names:
+        try:
+            cold[nb] = _cold(cat[nb], seed, cat[nb].variants()[0])[0]
+        except Exception:
+            cold[nb] = None
+    for na in a_names:
+        oa = cat[na]
+        for nb in names:
+            if nb == na or cold[nb] is None:
+                continue
+            ob = cat[nb]
+            case = {'kind': 'histop', 'op': na, 'mode': 'cross', 'then': nb}
+            acc.transitions += 1
+            chk_case(case, acc, seed)
+    acc.cls('history:cross-pairs', len(a_names) * (len(names) - 1))
+
+
 def tasks_for(pid, seed):
-    return [('t_callhist', {'seed': seed, 'op': name}) for name, o in sorted(catalogue().items()) if pid in o.props]
+    tasks = [('t_callhist', {'seed': seed, 'op': name}) for name, o in sorted(catalogue().items()) if pid in o.props]
+    if pid == 'C10':
+        tasks += [('t_cross', {'seed': seed, 'shard': k, 'nshard': 8}) for k in range(8)]
+    return tasks
 
 
 # parameters that are ndarrays in the catalogue but are not documented as array_like (or for which the pinned tree itself does
